@@ -697,6 +697,18 @@ func (fr *Frame) specCall(c *ECall, env *SpecEnv) Val {
 		}
 		v := argv(0)
 		return Val{S: fr.bv(st, fr.ptrTerm(v)), Typ: tInt}
+	case "ghost":
+		// ghost(name): value recorded by a `ghost at <callee> name: expr` clause (unconstrained before the first
+		// matching call)
+		if !need(1) {
+			break
+		}
+		id, ok := c.Args[0].(*EIdent)
+		if !ok {
+			return fr.specErr("ghost() expects a name")
+		}
+		fc.regVar("$ghost:"+id.Name, "Int")
+		return Val{S: fc.get(st, "$ghost:"+id.Name), Typ: tInt}
 	case "xmltext":
 		// the text delivered by the last XML decoding into a single-string destination (ghost set by the model of
 		// encoding/xml); unconstrained if no such decoding happened
